@@ -406,7 +406,7 @@ var friendly = []int{5000, 20000, 40000, 2500, 50000, 2000, 12500, 8000, 100000,
 var DefaultAccounts = []string{
 	"Assets:Bank:Checking", "Assets:Bank:Savings", "Assets:Bank", "Assets:Portfolio", "Liabilities:Card", "Liabilities:Loan:Car", "Expenses:Food",
 	"Equity:Equity", "Income:Salary", "Income:Gifts:Family", "Expenses:Rent", "Expenses:Food:Groceries", "Expenses:Food:Dining",
-	"Expenses:Trips:Rome:Hotel", "Assets:Bank:CH:Main:Sub", "Expenses:Café:Zürich", "Assets:Bank:Épargne",
+	"Expenses:Trips:Rome:Hotel", "Assets:Bank:CH:Main:Sub", "Expenses:Café:Zürich", "Assets:Bank:Épargne", "Expenses:eatingOut", "Assets:Bank:konto9",
 }
 
 // Random builds a well-formed journal (every used account opened before use, no closes
@@ -554,6 +554,12 @@ func Lifecycle(rng *rand.Rand, base, days, damage int, multi bool) *Journal {
 	j := &Journal{QS: 1}
 	accts := []string{"Assets:A", "Assets:B:C", "Liabilities:L", "Equity:Equity", "Expenses:X", "Income:I"}
 	comms := []string{"CHF", "USD"}
+	switch rng.Intn(4) {
+	case 0: // unusual but legal names: lower-case and digit-initial segments, non-ASCII, a parent next to its child
+		accts = []string{"Assets:a1", "Assets:Ébène:C", "Assets:Ébène", "Liabilities:L", "Equity:Equity", "Expenses:X:y9", "Income:I"}
+	case 1:
+		comms = []string{"CHF", "X1"}
+	}
 	open := map[string]bool{}
 	qty := map[[2]string]int{}
 	isAL := func(a string) bool { return strings.HasPrefix(a, "Assets") || strings.HasPrefix(a, "Liabilities") }
